@@ -158,6 +158,7 @@ type JGenOpts struct {
 	ChainPrices        bool // declare some prices through a third commodity
 	PricesFirstDayOnly bool // all price declarations on the first day (later days have bookings only)
 	DupPrices          bool // sometimes declare the same pair twice on one day with different prices (file order matters; excluded by C05 only)
+	LongPrices         bool // some declared prices carry 9-12 decimals (more than the 8 the price arithmetic keeps)
 	CaseVariants       bool // commodities that differ only in letter case (distinct commodities; comparators must not tie on them)
 }
 
@@ -273,6 +274,14 @@ func GenJournal(r *RNG, o JGenOpts) (*Journal, []string) {
 				}
 				if di == 0 || (!o.PricesFirstDayOnly && r.Chance(1, 3)) {
 					p := fmt.Sprintf("%d.%02d", r.Range(0, 300), r.Range(1, 99))
+					if o.LongPrices && r.Chance(1, 3) {
+						// a quote with more decimals than price arithmetic keeps (seeded change C09-c printed prices cut to 8)
+						k := r.Range(9, 12)
+						p = fmt.Sprintf("%d.%0*d", Pick(r, []int{0, 0, 1, 37}), k, 1+r.Intn(999999999))
+						if !strings.HasSuffix(p, "0") {
+							tag("price-long")
+						}
+					}
 					if o.ChainPrices && len(coms) > 2 && r.Chance(1, 3) {
 						// price in a third commodity, which itself is (or will be) priced in the valuation commodity
 						via := Pick(r, coms)
@@ -432,6 +441,50 @@ func GenJournal(r *RNG, o JGenOpts) (*Journal, []string) {
 }
 
 // mutateJournal applies one targeted mutation; the result may or may not be well-formed.
+// WidenDates moves a prefix of the journal's days far into the past (before 1678) and/or a suffix far into the
+// future (after 2262) by a monotone shift, so that order, lifecycle and verdict are unchanged while the dates leave
+// the range in which Unix nanoseconds fit an int64 (seeded change C04-c compared days by UnixNano).
+// Journals with @accrue windows are left alone (a window straddling a shift would get thousands of periods).
+func WidenDates(r *RNG, j *Journal) bool {
+	seen := map[int]bool{}
+	for _, d := range j.Dirs {
+		if d.Accrual != nil {
+			return false
+		}
+		seen[d.Date] = true
+	}
+	var days []int
+	for d := range seen {
+		days = append(days, d)
+	}
+	sort.Ints(days)
+	if len(days) < 2 {
+		return false
+	}
+	lo, hi := -1, 1<<62 // dates <= lo go to the past, dates >= hi to the future
+	mode := r.Intn(3)
+	if mode != 1 {
+		lo = days[r.Intn(len(days)-1)]
+	}
+	if mode != 0 {
+		hi = days[1+r.Intn(len(days)-1)]
+		if hi <= lo {
+			hi = lo + 1
+		}
+	}
+	past := 365 * r.Range(345, 700)
+	future := 365 * r.Range(250, 7900)
+	for i := range j.Dirs {
+		switch {
+		case j.Dirs[i].Date <= lo:
+			j.Dirs[i].Date -= past
+		case j.Dirs[i].Date >= hi:
+			j.Dirs[i].Date += future
+		}
+	}
+	return true
+}
+
 func mutateJournal(r *RNG, j *Journal, accounts, coms []string) string {
 	idx := func(kind byte) []int {
 		var res []int
